@@ -3,8 +3,8 @@ CONSTANTS
   Helper = "PHC"
   DH = 500
   DV = 500
-  DL = 0
-  X0 = 0
-  Y0 = 0
-  Z0 = 0
+  DL = 200
+  X0 = 1000
+  Y0 = 500
+  Z0 = 200
 CHECK_DEADLOCK FALSE
